@@ -2291,6 +2291,18 @@ func (c *Conn) handleCloseError(closeErr *closeError) {
 		c.connIDGenerator.RemoveAll()
 		return
 	}
+	// Before the client's address is validated, the anti-amplification limit applies to every packet
+	// the server sends, including the ones carrying a CONNECTION_CLOSE, see section 8.1 of RFC 9000.
+	// If the limit is used up, close silently, and don't retransmit the CONNECTION_CLOSE either.
+	// The handshake can't complete before the client's address is validated.
+	// As long as we haven't sent anything, the limit can't be used up:
+	// the client's first Initial packet (at least 1200 bytes) was received, even if it wasn't processed yet.
+	if c.perspective == protocol.PerspectiveServer && !c.handshakeComplete && c.connStats.BytesSent.Load() > 0 &&
+		c.sentPacketHandler.SendMode(monotime.Now()) == ackhandler.SendNone {
+		c.logger.Debugf("Not sending CONNECTION_CLOSE: amplification limited")
+		c.connIDGenerator.ReplaceWithClosed(nil, 3*c.rttStats.PTO(false))
+		return
+	}
 	connClosePacket, err := c.sendConnectionClose(e)
 	if err != nil {
 		c.logger.Debugf("Error sending CONNECTION_CLOSE: %s", err)
